@@ -30,9 +30,17 @@ def replayDictS (D : Defs) (op : OpInst) (d : SDir) (p : DP) : DP :=
      foldSet p.2 (es.filter (fun q => !expProps.contains q.1)))
   | _ => p
 
+theorem dp_replayTy (op : OpInst) (r : TyRef) (st : PState) : dp (replayTy op r st) = dp st := by
+  cases r <;> rfl
+
 theorem dp_replayS (D : Defs) (op : OpInst) (d : SDir) (st : PState) :
     dp (replayS D op d st) = replayDictS D op d (dp st) := by
   cases d <;> simp [replayS, replayDictS, dp, dictState, foldSet]
+  case funcTy ins outs =>
+    have h1 := dp_replayTy op outs (replayTy op ins st)
+    have h2 := dp_replayTy op ins st
+    simp only [dp, Prod.mk.injEq] at h1 h2
+    exact ⟨h1.1.trans h2.1, h1.2.trans h2.2⟩
   case attr name isProp optional dflt =>
     cases dictGet isProp op name with
     | none => simp
@@ -347,16 +355,10 @@ theorem hasP_of_covers (D : Defs) (op : OpInst) (d : SDir) (isProp : Bool) (n : 
       exact isSome_foldSet_hit (v := v) (List.mem_filter.mpr ⟨hmem, by simpa using hexp⟩)
   | _ => simp [coversS] at hc
 
-/-- all simple directives of a format -/
-def allS : List Dir → List SDir
-  | [] => []
-  | .s d :: ds => d :: allS ds
-  | .group _ f r e :: ds => (f :: r) ++ e ++ allS ds
-
 /-- a directive that is not executed for `op` sits in the branch the printer skipped: its construct
 is empty, and it is of a kind that may occur inside groups -/
-theorem exec_or_empty (op : OpInst) (fmt : List Dir) (K : List Cls) (d : SDir)
-    (hwf : wfD fmt K = true) (hv : ValidD op fmt) (hd : d ∈ allS fmt) :
+theorem exec_or_empty (D : Defs) (op : OpInst) (fmt : List Dir) (K : List Cls) (d : SDir)
+    (hwf : wfD fmt K = true) (hv : ValidD D op fmt) (hd : d ∈ allS fmt) :
     d ∈ execS op fmt ∨ (emptyS op d ∧ okInGroup d = true) := by
   induction fmt with
   | nil => cases hd
@@ -394,11 +396,11 @@ theorem exec_or_empty (op : OpInst) (fmt : List Dir) (K : List Cls) (d : SDir)
 /-- every non-default entry of the operation ends up in the parsed dictionary -/
 theorem hasP_final (D : Defs) (op : OpInst) (fmt : List Dir) (K : List Cls) (p : DP) (isProp : Bool)
     (n : String) (v : Nat) (d : SDir)
-    (hwf : wfD fmt K = true) (hv : ValidD op fmt) (hd : d ∈ allS fmt)
+    (hwf : wfD fmt K = true) (hv : ValidD D op fmt) (hd : d ∈ allS fmt)
     (hc : coversS D isProp n d = true) (hg : dictGet isProp op n = some v)
     (hnd : defaultOf D isProp n ≠ some v) :
     HasP isProp n (replayDictSeq D op (execS op fmt) p) := by
-  rcases exec_or_empty op fmt K d hwf hv hd with hx | ⟨he, hig⟩
+  rcases exec_or_empty D op fmt K d hwf hv hd with hx | ⟨he, hig⟩
   · exact hasP_replayDictSeq_hit D op _ p isProp n d hx (hasP_of_covers D op d isProp n v hc hg hnd)
   · exfalso
     cases d with
